@@ -43,8 +43,18 @@ def identifiers(maxlen: int):
                 yield first + "".join(rest)
 
 
+MESSAGE_ATTRS = {a for a in dir(betterproto.Message) if not a.startswith("_")}
+
+
 def special_names() -> List[str]:
     out = list(keyword.kwlist) + list(keyword.softkwlist) + [n for n in dir(builtins)]
+    # the public attributes of Message itself, in every spelling a .proto author may use
+    for attr in dir(betterproto.Message):
+        if attr.startswith("_"):
+            continue
+        parts = attr.split("_")
+        out += [attr, attr.upper(), "".join(p.capitalize() for p in parts),
+                parts[0] + "".join(p.capitalize() for p in parts[1:]), attr.capitalize()]
     seen = []
     for n in out + CORPUS:
         if re.fullmatch(r"[A-Za-z_][A-Za-z0-9_]*", n) and n not in seen:
@@ -167,7 +177,14 @@ def check_name(name: str, t: Tally, build_class: bool) -> List[Violation]:
                     else:
                         bad(f"{label}-dropped", f"from_dict({{{keys[label]!r}: 7}}) lost field {py!r}")
         except Exception as e:
-            bad("class-raised", f"{type(e).__name__}: {e}")
+            if py in MESSAGE_ATTRS:
+                # the field replaces an attribute of Message itself (dump, parse, from_dict ...): the
+                # class cannot encode or read JSON any more.  One recorded finding, by python name.
+                out.append(Violation(["names", "shadows-message-attribute", py],
+                                     f"identifier {name!r} becomes field {py!r}, which replaces Message.{py}: {type(e).__name__}: {e}"[:300],
+                                     {"name": name}))
+            else:
+                bad("class-raised", f"{type(e).__name__}: {e}")
     # dedupe
     seen, uniq = set(), []
     for v in out:
